@@ -1125,17 +1125,7 @@ pub fn c20(ctx: &mut Ctx) {
             Ok(())
         });
     }
-    for rc in reveal_cases().iter().filter(|rc| rc.name.contains("total")) {
-        ctx.case(&format!("reveal-{}", rc.name), &|| rc.replay(), || {
-            let g = match catch(|| rc.run()) {
-                Ok(g) => g,
-                Err(_) => return Ok(()), // totality of reveal is C13's
-            };
-            let s = rf::reveal(rc.t as i64, &rc.value, &rc.secret, &rc.rv);
-            ensure!(rf::rec_err(&g, &s), show(&s), show(&g));
-            Ok(())
-        });
-    }
+    // (errors returned by `reveal` are C12's: C20 is about decoding messages)
     // rendering
     let mut values: Vec<u16> = (0..=45).collect();
     values.extend([100u16, 255, 256, 257, 0x0700, 9999, 32767, 32768, 65534, 65535]);
